@@ -17,6 +17,6 @@ CONSTANTS NK = 1
           E = 14
           OnlyViol = TRUE
 VIEW GView
-CONSTRAINTS NotYetBad OneWaiter
+CONSTRAINTS NotYetBad OneWaiter NoManyWait
 INVARIANTS EmitViol
 CHECK_DEADLOCK FALSE
